@@ -17,9 +17,11 @@
  *     pointers), which keeps CBMC's points-to sets exact (measured: symex 34 s -> 1.5 s).
  *     Nondeterminism comes only from nondet_* functions.  What is NOT assumed: that a NULL
  *     result means "no occurrence" (over-approximation: sound for safety).
- * (2) BOUNDED route (-DVF_HTTP_BOUNDED, plain harnesses over fixed arrays): executable
- *     reference bodies of memmem / strncasecmp (CBMC ships no memmem model); memchr, memcmp,
- *     memmove, memset are CBMC's own models there.
+ * (2) BOUNDED route (-DVF_HTTP_BOUNDED, plain harnesses over fixed arrays): exact models of
+ *     memchr / memmem / memcmp / strncasecmp written as "choose the result, then constrain it
+ *     to be the libc result" (no early loop exits; glibc manual semantics: first occurrence,
+ *     byte-wise order, case-insensitive compare that stops at NUL); memmove, memset are
+ *     CBMC's own models there.
  */
 #ifndef VF_STUBS_HTTP_H
 #define VF_STUBS_HTTP_H
@@ -99,42 +101,99 @@ memmove(void *dst, const void *src, size_t n) {
 
 #endif /* !VF_HTTP_BUILTIN_MEMMOVE */
 
-#else /* VF_HTTP_BOUNDED: executable models, unwound completely */
+#else /* VF_HTTP_BOUNDED: exact models for fixed-size arrays */
+/*
+ * Exact, loop-exit-free models: the result is chosen nondeterministically and then
+ * CONSTRAINED to be the libc result ("first occurrence": the chosen position matches and
+ * no earlier position does).  Every loop runs a constant number of iterations
+ * (VF_HTTP_STUB_MAX >= any length passed; checked by an assertion) and contains no early
+ * exit, which keeps symbolic execution on one path per call.
+ */
+#ifndef VF_HTTP_STUB_MAX
+#define VF_HTTP_STUB_MAX 64
+#endif
+void *
+memchr(const void *s, int c, size_t n) {
+	const unsigned char *sp = (const unsigned char *)s;
+	size_t k = nondet_size_t();
+
+	__CPROVER_assert(n <= VF_HTTP_STUB_MAX, "memchr model: length within the model bound");
+	__CPROVER_assume(k <= n);
+	for (size_t j = 0; j < VF_HTTP_STUB_MAX; j ++) {
+		if (j < k)
+			__CPROVER_assume(sp[j] != (unsigned char)c);
+	}
+	if (k == n)
+		return (NULL);
+	__CPROVER_assume(sp[k] == (unsigned char)c);
+	return ((void *)(sp + k));
+}
+
+/* needles are the literals CRLF and "://" (at most 4 bytes) or short field names */
 void *
 memmem(const void *h, size_t hn, const void *nd, size_t nn) {
 	const unsigned char *hp = (const unsigned char *)h;
 	const unsigned char *np = (const unsigned char *)nd;
-	size_t i, j;
+	size_t k = nondet_size_t(), last;
 
+	__CPROVER_assert(hn <= VF_HTTP_STUB_MAX && nn <= 4, "memmem model: lengths within the model bound");
 	if (nn == 0)
 		return ((void *)hp);
 	if (nn > hn)
 		return (NULL);
-	for (i = 0; i <= hn - nn; i ++) {
-		for (j = 0; j < nn && hp[i + j] == np[j]; j ++)
-			;
-		if (j == nn)
-			return ((void *)(hp + i));
+	last = hn - nn;		/* last candidate position */
+	__CPROVER_assume(k <= last + 1);
+	for (size_t j = 0; j < VF_HTTP_STUB_MAX; j ++) {
+		if (j <= last && j <= k) {
+			_Bool m = 1;
+			for (size_t t = 0; t < 4; t ++) {
+				if (t < nn && hp[j + t] != np[t])
+					m = 0;
+			}
+			__CPROVER_assume(m == (j == k));	/* match at k, none before */
+		}
 	}
-	return (NULL);
+	if (k == last + 1)
+		return (NULL);
+	return ((void *)(hp + k));
+}
+
+int
+memcmp(const void *a, const void *b, size_t n) {
+	const unsigned char *ap = (const unsigned char *)a, *bp = (const unsigned char *)b;
+	int r = 0;
+
+	__CPROVER_assert(n <= VF_HTTP_STUB_MAX, "memcmp model: length within the model bound");
+	for (size_t i = 0; i < VF_HTTP_STUB_MAX; i ++) {
+		if (i < n && r == 0 && ap[i] != bp[i])
+			r = (ap[i] < bp[i]) ? -1 : 1;
+	}
+	return (r);
 }
 
 static inline unsigned char
 vf_lc(unsigned char c) {
 	return ((c >= 'A' && c <= 'Z') ? (unsigned char)(c | 32) : c);
 }
+/* compares ignoring case, at most n bytes, stops after a NUL in both */
 int
 strncasecmp(const char *a, const char *b, size_t n) {
-	size_t i;
+	int r = 0;
+	_Bool stop = 0;
 
-	for (i = 0; i < n; i ++) {
-		unsigned char ca = vf_lc((unsigned char)a[i]), cb = vf_lc((unsigned char)b[i]);
-		if (ca != cb)
-			return ((int)ca - (int)cb);
-		if (ca == 0)
-			break;
+	__CPROVER_assert(n <= VF_HTTP_STUB_MAX, "strncasecmp model: length within the model bound");
+	for (size_t i = 0; i < VF_HTTP_STUB_MAX; i ++) {
+		if (i < n && !stop) {
+			unsigned char ca = vf_lc((unsigned char)a[i]), cb = vf_lc((unsigned char)b[i]);
+			if (ca != cb) {
+				r = (int)ca - (int)cb;
+				stop = 1;
+			} else if (ca == 0) {
+				stop = 1;
+			}
+		}
 	}
-	return (0);
+	return (r);
 }
 #endif
 #endif /* !VF_REPLAY */
